@@ -810,6 +810,269 @@ static string opMtHist(const vector<string>& steps)
 	return out.str();
 }
 
+
+// ---------------------------------------------------------------- BDD encodings (C07, C08)
+using BU = BDDBottomUpTreeAut;
+using TD = BDDTopDownTreeAut;
+
+// Timbuk text of a TA token: symbols "s<k>" (rank = number of children), states "q<k>"
+static string timbukOf(const TAT& t)
+{
+	std::map<size_t, size_t> rank;
+	std::set<size_t> states;
+	for (const RuleT& r : t.rules) {
+		auto it = rank.find(r.sym);
+		if (it != rank.end() && it->second != r.kids.size()) throw std::invalid_argument("symbol with two ranks");
+		rank[r.sym] = r.kids.size();
+		states.insert(r.parent);
+		for (size_t k : r.kids) states.insert(k);
+	}
+	for (size_t f : t.finals) states.insert(f);
+	std::ostringstream os;
+	os << "Ops";
+	for (auto& p : rank) os << " s" << p.first << ":" << p.second;
+	os << "\nAutomaton anonymous\nStates";
+	for (size_t q : states) os << " q" << q;
+	os << "\nFinal States";
+	for (size_t f : t.finals) os << " q" << f;
+	os << "\nTransitions\n";
+	for (const RuleT& r : t.rules) {
+		os << "s" << r.sym;
+		if (!r.kids.empty()) {
+			os << "(";
+			for (size_t i = 0; i < r.kids.size(); ++i) { if (i) os << ","; os << "q" << r.kids[i]; }
+			os << ")";
+		}
+		os << " -> q" << r.parent << "\n";
+	}
+	return os.str();
+}
+
+template <class Aut>
+static Aut loadBdd(const TAT& t, AutBase::StateDict& dict)
+{
+	Parsing::TimbukParser parser;
+	Aut a;
+	a.LoadFromString(parser, timbukOf(t), dict);
+	return a;
+}
+
+static size_t numAfter(const string& s, char c)
+{
+	if (s.size() < 2 || s[0] != c) throw std::runtime_error("unexpected name in dump: " + s);
+	return toN(s.substr(1));
+}
+
+// numeric dump of a BDD automaton (state names are numbers when no dictionary is given)
+template <class Aut>
+static string dumpBdd(const Aut& a)
+{
+	CaptureSerializer cs;
+	a.DumpToString(cs);
+	vector<string> rs;
+	for (auto& t : cs.last.transitions) {
+		std::ostringstream os;
+		os << numAfter(t.second, 's') << ":";
+		for (size_t i = 0; i < t.first.size(); ++i) { if (i) os << ","; os << toN(t.first[i]); }
+		os << ">" << toN(t.third);
+		rs.push_back(os.str());
+	}
+	std::sort(rs.begin(), rs.end());
+	std::ostringstream os;
+	for (size_t i = 0; i < rs.size(); ++i) { if (i) os << ";"; os << rs[i]; }
+	os << "|";
+	std::set<size_t> fs;
+	for (auto& f : cs.last.finalStates) fs.insert(toN(f));
+	bool first = true;
+	for (size_t q : fs) { if (!first) os << ","; os << q; first = false; }
+	return os.str();
+}
+
+static InclParam mkParam(unsigned w)
+{
+	InclParam ip;
+	ip.SetAlgorithm((w & 1) ? InclParam::e_algorithm::congruences : InclParam::e_algorithm::antichains);
+	ip.SetDirection((w & 2) ? InclParam::e_direction::downward : InclParam::e_direction::upward);
+	ip.SetUseDownwardCacheImpl(w & 4);
+	ip.SetUseRecursion(w & 8);
+	ip.SetUseSimulation(w & 16);
+	ip.SetSearchOrder((w & 32) ? InclParam::e_search_order::breadth : InclParam::e_search_order::depth);
+	ip.SetEquivalence(w & 64);
+	return ip;
+}
+
+template <class F>
+static char guardedVerdict(F f)
+{
+	return forked([&]() -> char {
+		try { return f() ? '1' : '0'; }
+		catch (const NotImplementedException&) { return 'N'; }
+		catch (const std::exception&) { return 'E'; }
+	}, g_selTimeout);
+}
+
+// bddincl <A> <B> : every implemented selection of both encodings
+static string opBddIncl(const vector<string>& a)
+{
+	TAT ta = parseTA(a.at(0)), tb = parseTA(a.at(1));
+	string v;
+	{	// top-down, raw operands (each loaded with its own dictionary: overlapping numbers)
+		AutBase::StateDict d1, d2;
+		TD A = loadBdd<TD>(ta, d1), B = loadBdd<TD>(tb, d2);
+		v += guardedVerdict([&]() { return TD::CheckInclusion(A, B, mkParam(2 | 8)); });          // down rec
+		v += guardedVerdict([&]() { return TD::CheckInclusion(A, B, mkParam(2 | 8 | 4)); });      // down rec opt
+		v += '-';                                                                                 // (no default overload in this encoding)
+	}
+	{	// bottom-up
+		AutBase::StateDict d1, d2;
+		BU A = loadBdd<BU>(ta, d1), B = loadBdd<BU>(tb, d2);
+		v += guardedVerdict([&]() { return BU::CheckInclusion(A, B, mkParam(0)); });              // up
+		v += guardedVerdict([&]() { return BU::CheckInclusion(A, B, mkParam(2 | 8 | 16)); });     // down rec + sim
+		v += guardedVerdict([&]() { return BU::CheckInclusion(A, B); });                          // default overload
+		// top-down with simulation: the relation the bottom-up path computes for the sanitised operands
+		for (unsigned opt = 0; opt < 2; ++opt) {
+			v += guardedVerdict([&]() {
+				BU s(A), b(B);
+				StateType states = AutBase::SanitizeAutsForInclusion(s, b);
+				BU u = BU::UnionDisjointStates(s, b);
+				SimParam sp;
+				sp.SetRelation(SimParam::e_sim_relation::TA_DOWNWARD);
+				sp.SetNumStates(states);
+				AutBase::StateDiscontBinaryRelation sim = u.ComputeSimulation(sp);
+				TD std_ = s.GetTopDownAut(), btd = b.GetTopDownAut();
+				InclParam ip = mkParam(2 | 8 | 16 | (opt ? 4 : 0));
+				ip.SetSimulation(&sim);
+				return TD::CheckInclusion(std_, btd, ip);
+			});
+		}
+	}
+	return "v=" + v;
+}
+
+// bddinclall <A> <B> : all 128 option words on both encodings ('N' = NotImplementedException)
+static string opBddInclAll(const vector<string>& a)
+{
+	TAT ta = parseTA(a.at(0)), tb = parseTA(a.at(1));
+	AutBase::StateDict d1, d2, d3, d4;
+	TD At = loadBdd<TD>(ta, d1), Bt = loadBdd<TD>(tb, d2);
+	BU Ab = loadBdd<BU>(ta, d3), Bb = loadBdd<BU>(tb, d4);
+	string vt, vb;
+	for (unsigned w = 0; w < 128; ++w) {
+		// a valid relation is attached whenever the simulation bit is set (the code dereferences it unchecked)
+		auto withSim = [&](InclParam& ip, AutBase::StateDiscontBinaryRelation& sim, BU& s, BU& b) {
+			StateType states = AutBase::SanitizeAutsForInclusion(s, b);
+			if (w & 2) {	// downward: the downward simulation of the union
+				BU u = BU::UnionDisjointStates(s, b);
+				SimParam sp;
+				sp.SetRelation(SimParam::e_sim_relation::TA_DOWNWARD);
+				sp.SetNumStates(states);
+				sim = u.ComputeSimulation(sp);
+			}
+			else {	// upward: the library cannot compute an upward simulation on this encoding; identity is one
+				Util::BinaryRelation id(states, false);
+				AutBase::StateToStateMap dict;
+				for (size_t i = 0; i < states; ++i) { id.set(i, i, true); dict[i] = i; }
+				sim = AutBase::StateDiscontBinaryRelation(id, dict);
+			}
+			ip.SetSimulation(&sim);
+		};
+		vt += guardedVerdict([&]() {
+			InclParam ip = mkParam(w);
+			if (w & 16) {
+				BU s(Ab), b(Bb);
+				AutBase::StateDiscontBinaryRelation sim;
+				withSim(ip, sim, s, b);
+				TD std_ = s.GetTopDownAut(), btd = b.GetTopDownAut();
+				return TD::CheckInclusion(std_, btd, ip);
+			}
+			return TD::CheckInclusion(At, Bt, ip);
+		});
+		vb += guardedVerdict([&]() {
+			InclParam ip = mkParam(w);
+			if (w & 16) {
+				BU s(Ab), b(Bb);
+				AutBase::StateDiscontBinaryRelation sim;
+				withSim(ip, sim, s, b);
+				return BU::CheckInclusion(s, b, ip);
+			}
+			return BU::CheckInclusion(Ab, Bb, ip);
+		});
+	}
+	return "td=" + vt + " bu=" + vb;
+}
+
+// bddh <enc> <step> ... : histories over one encoding (enc = bu | td); all loads share one state dictionary
+template <class Aut>
+static string bddHist(const vector<string>& steps)
+{
+	vector<std::unique_ptr<Aut>> pool;
+	std::ostringstream out;
+	for (size_t k = 1; k < steps.size(); ++k) {
+		vector<string> f = split(steps[k], '!');
+		const string& op = f.at(0);
+		auto ix = [&](size_t i) -> size_t { size_t x = toN(f.at(i)); if (x >= pool.size() || !pool[x]) throw std::invalid_argument("dead entry"); return x; };
+		auto ent = [&](size_t i) -> Aut& { return *pool[ix(i)]; };
+		if (op == "def" || op == "defo") {
+			AutBase::StateDict d;
+			Aut a = loadBdd<Aut>(parseTA(f.at(1)), d);
+			if (op == "def") {	// disjoint numbers for every definition: 100*k, 100*k+1, ...
+				AutBase::StateToStateMap m;
+				size_t cnt = 100 * k;
+				AutBase::StateToStateTranslWeak tw(m, [&cnt](const StateType&) { return cnt++; });
+				a = a.ReindexStates(tw);
+			}
+			pool.emplace_back(new Aut(a));
+		}
+		else if (op == "copy") { pool.emplace_back(new Aut(ent(1))); }
+		else if (op == "assign") { ent(1) = ent(2); }
+		else if (op == "kill") { pool[ix(1)].reset(); }
+		else if (op == "loadinto") {	// LoadFromString into an existing automaton (AddTransition on a possibly shared table)
+			Parsing::TimbukParser parser;
+			AutBase::StateDict d;
+			ent(1).LoadFromString(parser, timbukOf(parseTA(f.at(2))), d);
+		}
+		else if (op == "final") { ent(1).SetStateFinal(toN(f.at(2))); }
+		else if (op == "union") {
+			AutBase::StateToStateMap ml, mr;
+			pool.emplace_back(new Aut(Aut::Union(ent(1), ent(2), &ml, &mr)));
+			out << " ml" << k << "=" << dumpMap(ml) << " mr" << k << "=" << dumpMap(mr);
+		}
+		else if (op == "uniondisj") { pool.emplace_back(new Aut(Aut::UnionDisjointStates(ent(1), ent(2)))); }
+		else if (op == "isect") {
+			AutBase::ProductTranslMap m;
+			pool.emplace_back(new Aut(Aut::Intersection(ent(1), ent(2), &m)));
+			out << " m" << k << "=" << dumpPairMap(m);
+		}
+		else if (op == "unreach") { pool.emplace_back(new Aut(ent(1).RemoveUnreachableStates())); }
+		else if (op == "useless") { pool.emplace_back(new Aut(ent(1).RemoveUselessStates())); }
+		else throw std::invalid_argument("unknown step " + op);
+		out << " S" << k;
+		for (size_t i = 0; i < pool.size(); ++i) if (pool[i]) out << " " << k << "." << i << "=" << dumpBdd(*pool[i]);
+	}
+	return out.str().substr(1);
+}
+
+static string opBddHist(const vector<string>& a)
+{
+	if (a.at(0) == "bu") return bddHist<BU>(a);
+	if (a.at(0) == "td") return bddHist<TD>(a);
+	throw std::invalid_argument("encoding");
+}
+
+// bddtd <A> : bottom-up -> top-down conversion
+static string opBddToTd(const vector<string>& a)
+{
+	AutBase::StateDict dict;
+	BU A = loadBdd<BU>(parseTA(a.at(0)), dict);
+	TD T = A.GetTopDownAut();
+	std::ostringstream out;
+	out << "bu=" << dumpBdd(A) << " td=" << dumpBdd(T) << " dict=";
+	bool first = true;
+	for (auto& p : dict) { if (!first) out << ","; out << numAfter(p.first, 'q') << ">" << p.second; first = false; }
+	if (first) out << "-";
+	return out.str();
+}
+
 // ---------------------------------------------------------------- LTS simulation engine
 // lts <n> <edges q,a,r;...|-> <partition b/b/... with b = q,q,... | -> <block relation i.j,... | -> <outputSize> <overload 0|1|2>
 static string opLts(const vector<string>& a)
@@ -869,6 +1132,10 @@ static string runCase(const string& kind, const vector<string>& args)
 	if (kind == "nfah") return opNfaHist(args);
 	if (kind == "lts") return opLts(args);
 	if (kind == "tah") return opTaHist(args);
+	if (kind == "bddincl") return opBddIncl(args);
+	if (kind == "bddinclall") return opBddInclAll(args);
+	if (kind == "bddh") return opBddHist(args);
+	if (kind == "bddtd") return opBddToTd(args);
 	if (kind == "mth" || kind == "mthrc") return opMtHist(args);
 	return "BADKIND";
 }
